@@ -42,6 +42,10 @@ TamperViol(e) ==
   {<<"Authentic", e.tpe, e.fault, r.i>> : r \in {x \in Range(e.reads) : x.res = "diff"}}
   \cup {<<"Detected", e.tpe, e.fault, r.i, r.res>> : r \in {x \in Range(e.reads) : Hit(e, x.i) /\ x.res # "err"}}
   \cup {<<"ReadPanics", e.tpe, e.fault, r.i>> : r \in {x \in Range(e.reads) : x.res = "panic"}}
+  \* restore to disk after the fault: the same files, or a failure - never success with other / missing content
+  \* (a panic of the restore workers is a failure, but not "an error": reported separately as RestorePanics)
+  \cup (IF "restore" \in DOMAIN e /\ e.restore = "diff" THEN {<<"Authentic", e.tpe, e.fault, 0>>} ELSE {})
+  \cup (IF "restore" \in DOMAIN e /\ e.restore = "panic" THEN {<<"RestorePanics", e.tpe, e.fault, 0>>} ELSE {})
 
 MsgViol(e) ==
   LET t == e.tally IN
